@@ -501,9 +501,9 @@ func (c *Ctx) strLit(s string) string {
 		}
 		c.Fact(And(fs...))
 	}
-	for o, on := range c.strLits {
+	for _, o := range c.strLitOrder {
 		if len(o) == len(s) {
-			c.Fact(fmt.Sprintf("(not (= %s %s))", n, on))
+			c.Fact(fmt.Sprintf("(not (= %s %s))", n, c.strLits[o]))
 		}
 	}
 	c.strLits[s] = n
